@@ -23,9 +23,16 @@ impl HasKey<Secret> for V4 {
     type Key = SecretKey;
 
     fn decode(bytes: &[u8]) -> Result<SecretKey, PasetoError> {
-        crypto_sign::SecretKey::from_bytes(bytes)
-            .map(SecretKey)
-            .map_err(|_| PasetoError::InvalidKey)
+        let key = crypto_sign::SecretKey::from_bytes(bytes).map_err(|_| PasetoError::InvalidKey)?;
+
+        // the second half must be the public key of the seed in the first half
+        let seed = key.as_bytes().first_chunk().ok_or(PasetoError::InvalidKey)?;
+        let pair = crypto_sign::keypair_from_seed(seed).map_err(|_| PasetoError::InvalidKey)?;
+        if libsodium_rs::utils::compare(pair.secret_key.as_bytes(), key.as_bytes()) != 0 {
+            return Err(PasetoError::InvalidKey);
+        }
+
+        Ok(SecretKey(key))
     }
     fn encode(key: &SecretKey) -> Box<[u8]> {
         key.0.as_bytes().to_vec().into_boxed_slice()
